@@ -158,6 +158,7 @@ pub open spec fn completion_frame(pre: ProtocolState, post: ProtocolState) -> bo
     &&& post.protocol_version == pre.protocol_version
     &&& post.has_connected_successfully == pre.has_connected_successfully
     &&& post.operation_ack_timeouts == pre.operation_ack_timeouts
+    &&& post.inbound_alias_resolver == pre.inbound_alias_resolver
 }
 
 // completing (or failing) a user DISCONNECT tears the connection down -- unless there is no connection any more (C12:
@@ -2132,6 +2133,7 @@ pub open spec fn asp_frame(pre: ProtocolState, post: ProtocolState) -> bool {
     &&& post.connack_timeout_timepoint == pre.connack_timeout_timepoint && post.has_connected_successfully == pre.has_connected_successfully
     &&& post.current_operation == pre.current_operation && post.next_operation_id == pre.next_operation_id && post.next_packet_id == pre.next_packet_id
     &&& post.pending_write_completion == pre.pending_write_completion && post.current_time == pre.current_time && post.protocol_version == pre.protocol_version
+    &&& post.inbound_alias_resolver == pre.inbound_alias_resolver
 }
 
 pub proof fn lemma_concat_contains<A>(a: Seq<A>, b: Seq<A>)
@@ -2453,6 +2455,8 @@ impl ProtocolState {
                     &&& ({ let k = post.current_settings->Some_0.server_keep_alive;
                            if k > 0 { post.next_ping_timepoint matches Some(np) && np.nanos == now.nanos + k as int * 1000000000 } else { post.next_ping_timepoint is None } })
                     &&& final(context).packet_events@ == old(context).packet_events@.push(PacketEvent::Connack(connack))
+                    // C17: inbound alias bindings never survive a reconnect - whether or not the session is resumed
+                    &&& post.inbound_alias_resolver.current_aliases@ == Map::<u16, String>::empty()
                 }
             &&& post.state == pre.state || post.state == ProtocolStateType::Connected
         }),
